@@ -59,7 +59,14 @@ def gaOf (tab : List (Nat × Int)) : Nat → Int := fun h =>
 
 def verdict (a : TAcc) : String :=
   match a.bad with
-  | some (i, msg) => s!"reject {i} {msg}"
+  | some (i, msg) =>
+    -- a scenario that did not complete: the events before the time-out may already show why
+    if msg.startsWith "TIMEOUT" then
+      let ga := gaOf a.tab
+      match feedAll (ga := ga) { m := Walk.start ga } 0 a.evs.reverse with
+      | .ok _ => s!"reject {i} {msg}"
+      | .error (j, m2) => s!"reject {j} {m2} (and the scenario then timed out)"
+    else s!"reject {i} {msg}"
   | none =>
     let ga := gaOf a.tab
     match feedAll (ga := ga) { m := Walk.start ga } 0 (a.evs.reverse ++ [Ev.fin (!a.tsan)]) with
